@@ -189,3 +189,4 @@ TECHNIQUE = "Lean 4 refinement proofs (induction over word lists, all W) + diffe
 USES_GEN = True
 GEN_PROPS = ["Dashu.Props.GenInt"]
 GEN_AUDIT = ["Dashu.Audit.GenInt"]
+READY = True
